@@ -149,6 +149,7 @@ func (w *world) gen() {
 			RequireTLS: s.T.Choose(st, 2) == 1,
 			Quit421:    s.T.Choose(st, 6) == 0,
 			Perm552:    s.T.Choose(st, 4) == 0,
+			IdleClose:  []time.Duration{0, 0, 20 * time.Second}[s.T.Choose(st, 3)],
 			Rcpt:       map[string][]actors.Outcome{}, FinalPer: map[string][]actors.Outcome{}}
 		num := []int{0, 2, 4}[s.T.Choose(st, 3)]
 		for k := 0; k < 6; k++ {
@@ -569,13 +570,13 @@ func Run(s *simrt.Sim, a *harness.Args, r *harness.Result) {
 		done = true
 	})
 	res := s.Run(30*time.Minute, func() bool { return done })
-	if !done && len(s.Violations()) == 0 {
-		simrt.Harnessf("driver did not finish (%v); parked=%v", res, s.ParkedKeys())
-	}
 	for _, p := range s.Panics() {
 		if p.Func != "HARNESS" {
 			s.Violate(a.Prop+"/panic/"+p.Func, "task %s panicked: %s", p.Task, p.Value)
 		}
+	}
+	if !done && len(s.Violations()) == 0 {
+		simrt.Harnessf("driver did not finish (%v); parked=%v", res, s.ParkedKeys())
 	}
 	if len(s.Violations()) == 0 {
 		switch a.Prop {
